@@ -109,6 +109,7 @@ class Kernel(object):
         self.switches = 0
         self.switch_sig = hashlib.sha256()
         self.max_events = max_events
+        self._cap_at = max_events
         self.keep_log = keep_log
         self.log = []
         self.seq = 0
@@ -362,9 +363,13 @@ class Kernel(object):
             self.log.append((self.seq, cur.name, kind, detail))
         lo, hi = self.latency
         self.now_us += self._lat_rng.randint(lo, hi)
-        if self.seq > self.max_events:
+        if kind == "step":
+            # the cap is a livelock guard, not a workload limit: every harness-level
+            # operation (the "step" events) gets a fresh budget of max_events
+            self._cap_at = self.seq + self.max_events
+        if self.seq > self._cap_at:
             self.aborting = True
-            self.abort_reason = "event cap exceeded"
+            self.abort_reason = "event cap exceeded (more than %d events inside one operation)" % self.max_events
             raise SimAbort()
         self._last_kind = kind
         for h in self.event_hooks:
